@@ -49,7 +49,17 @@ TreeScripts ==
 \* unsigned round trip
 NoneScripts ==
   { << BNewOp, Tree("hdr", "flat"), Tree("clm", cc), Gen, CNewOp, CSetCbOp(<<[k |-> "read"]>>), VerifyOp([src |-> "slot", slot |-> 0]) >> : cc \in TreeClasses }
-C05Scripts == TreeScripts \cup NoneScripts
+\* JSON text with the escape \u0000 inside strings: whether the builder takes it or refuses it, what it
+\* generates must verify (a builder that accepts what no checker can parse breaks the round trip)
+NulText == "{\"s\":\"a\\u0000b\",\"t\":[\"\\u0000\"],\"u\":{\"k\":\"\\u0000x\"}}"
+NulSet(w) == [op |-> "BMap", b |-> 0, k |-> "set", which |-> w, map |-> 0,
+              v |-> [t |-> "json", name |-> NONE, val |-> NulText, replace |-> 0, jcls |-> "objx", jm |-> <<>>, jcanon |-> NONE]]
+NulScripts ==
+  { << OpsOp(p1), LoadOp(<<ka[1], Pub(ka[1])>>), BNewOp, BSetKeyOp(ka[2], 0), NulSet(w), Gen, OpsOp(p2), CNewOp,
+       CSetKeyOp(ka[2], 1), CSetCbOp(<<[k |-> "read"]>>), VerifyOp([src |-> "slot", slot |-> 0]) >> :
+      ka \in { <<OctKey(32, "a", NONE, NONE), "HS256">>, <<AsymKey("p256a", 1, NONE, NONE), "ES256">> },
+      p1 \in Providers, p2 \in Providers, w \in {"hdr", "clm"} }
+C05Scripts == TreeScripts \cup NoneScripts \cup NulScripts
 
 \* many ECDSA signatures with small fixed claims (the harness repeats the final pair)
 EcPairs == { <<AsymKey("p256a", 1, NONE, NONE), "ES256">>, <<AsymKey("p384a", 1, NONE, NONE), "ES384">>,
